@@ -14,6 +14,7 @@ type Event struct {
 	Args []Val
 	Heap map[string]Term // heap snapshot at emission time
 	Desc string
+	Loop int // ordinal of the loop whose (single symbolic) iteration emitted the event; 0 = outside loops
 }
 
 type HeldLock struct {
@@ -88,8 +89,11 @@ type State struct {
 	loopHeld  []HeldLock
 	assumeTo  *State // evaluation copies forward their assumptions to the real state
 	dryFreshFrom int
+	dryFnFresh map[string]bool // arrays written in the dry run only at objects allocated by this function
 	pendingAx []pendingAxiom
 	ghosts map[string]Term // loop ghost arrays
+	curLoop int
+	loopEvStart map[int]int
 }
 
 func (st *State) clone() *State {
@@ -138,6 +142,12 @@ func (st *State) clone() *State {
 	n.onceDone = make(map[string]Term, len(st.onceDone))
 	for k, v := range st.onceDone {
 		n.onceDone[k] = v
+	}
+	if st.loopEvStart != nil {
+		n.loopEvStart = make(map[int]int, len(st.loopEvStart))
+		for k, v := range st.loopEvStart {
+			n.loopEvStart[k] = v
+		}
 	}
 	n.ghosts = make(map[string]Term, len(st.ghosts))
 	for k, v := range st.ghosts {
@@ -264,6 +274,18 @@ func (st *State) noteWrite(name string, idx *Term) {
 		return
 	}
 	st.dryWrites[name] = true
+	if idx != nil && isFreshTerm(*idx) {
+		// written at an object allocated earlier in this function: pre-existing objects untouched
+		if st.dryFnFresh != nil {
+			if _, ok := st.dryFnFresh[name]; !ok {
+				st.dryFnFresh[name] = true
+			}
+		}
+		return
+	}
+	if st.dryFnFresh != nil {
+		st.dryFnFresh[name] = false
+	}
 }
 
 func freshNumber(t Term) int {
